@@ -1,0 +1,14 @@
+//go:build verif
+
+package apk
+
+import (
+	"context"
+	"net/http"
+)
+
+// VerifNewRangeRetryTransport exposes newRangeRetryTransport to the
+// verification harness (build tag verif only).
+func VerifNewRangeRetryTransport(ctx context.Context, client *http.Client) http.RoundTripper {
+	return newRangeRetryTransport(ctx, client)
+}
